@@ -70,6 +70,15 @@ def check_move_assign(rep, prop, db, f, inst, release_pred, registered_field, re
     for p in ps:
         stores = this_field_stores(p)
         if not stores:
+            # a path that transfers nothing is only right when source and destination are the SAME OBJECT: it must have assumed
+            # `this == &other` (identity), not equality of some field value that distinct owners can share
+            conds = q.conds_before(p, len(p.events))
+            ident = any(c[0] == "cmp" and c[1] == "==" and {c[2], c[3]} == {("this",), ("addr", other)} for c in conds)
+            if not ident:
+                why = next((fmt(c) for c in conds if c[0] == "cmp" and q.mentions(c, lambda x: x == other or x == ("addr", other))), "no identity test")
+                rep.violation(rule, site(f) + " [no transfer]", "a path of the move assignment transfers nothing although source and destination are not known to be the same object "
+                              "(guarded by %s): two distinct owners for which that condition holds are left as they were - the source is not inert, the destination's registration is not released" % why[:90], f["loc"], inst)
+                return
             continue  # self-assignment path
         n_other += 1
         first = stores[0][0]
